@@ -153,7 +153,7 @@ def graphs(ctx: Ctx):
     i = 0
     for edges in graphgen.all_graphs(2):
         for order in itertools.permutations(range(2)):
-            for scheme in ("plain", "prefix", "propcase"):
+            for scheme in ("plain", "prefix", "propcase", "itemish"):
                 i += 1
                 if ctx.mine(i):
                     yield 2, edges, order, scheme
